@@ -62,8 +62,23 @@ class LocalPipelineIo(PipelineIo):
         cdir = os.path.split(fpath)[0]
         os.makedirs(cdir, exist_ok=True)
 
-        with open(fpath, 'wb') as f:
-            shutil.copyfileobj(source, f)
+        # Write under a temporary name and rename into place, so that an
+        # interrupted transfer never leaves a truncated item under its final
+        # name -- in particular, it never truncates an item that an earlier
+        # run had stored completely.
+        tmp_path = fpath + '.part'
+
+        try:
+            with open(tmp_path, 'wb') as f:
+                shutil.copyfileobj(source, f)
+
+            os.replace(tmp_path, fpath)
+        except BaseException:
+            try:
+                os.unlink(tmp_path)
+            except OSError:
+                pass
+            raise
 
     def list_items(self, *path):
         dpath = self._make_item_name(path)
